@@ -81,9 +81,9 @@ def run(ctx):
     for ev in THROWS:
         for g in ('M', 'F'):
             prev = None
-            for ag in LIB_LABELS:
+            for ag in LIB_LABELS + [l for l in labels if l not in LIB_LABELS]:      # every label asked above: the code clause holds wherever there is a weight
                 w = athlib.get_implement_weight(ev, g, ag)
-                if ag.startswith('V'):
+                if ag.startswith('V') and ag in LIB_LABELS:
                     if not w:
                         fail('athlib.get_implement_weight', [ev, g, ag], 'a weight for every masters band (neighbouring bands have one)', repr(w), 'masters band without implement')
                     else:
@@ -105,6 +105,49 @@ def run(ctx):
                 if not good: fail('athlib.get_specific_event_code', [ev, g, ag], 'a valid throws code', code, 'specific code is not a valid throws code')
                 elif norm != code: fail('athlib.get_specific_event_code', [ev, g, ag], 'already normalised', '%s normalises to %s' % (code, norm), 'specific code is not normalised')
                 elif not same: fail('athlib.get_specific_event_code', [ev, g, ag], 'weight %s' % w, code, 'specific code carries another weight')
+    # ---- the answers must not depend on what was asked before: the same questions in a FRESH interpreter, in the
+    # opposite order (falling bands, women first), must get the answers given above
+    import subprocess, sys as _sys, json as _json
+    first = {}
+    for rq, im in zip(reqs, impl):
+        first.setdefault(rq, im)                     # what the first sweep above was told
+    qs = [(ev, g, ag) for ev in THROWS for g in ('M', 'F') for ag in LIB_LABELS + OTHER]
+    orders = {'rising': qs, 'falling': list(reversed(qs))}
+    for k in range(2):
+        o = list(qs); rng.shuffle(o); orders['shuffled-%d' % k] = o
+    answers = {}
+    for oname, order in orders.items():
+        code_ = ('import sys, json; sys.path.insert(0, %r); import athlib\n'
+                 'out = []\n'
+                 'for ev, g, ag in json.loads(sys.stdin.read()):\n'
+                 '    try: w = athlib.get_implement_weight(ev, g, ag)\n'
+                 '    except Exception as e: w = "Error:" + type(e).__name__\n'
+                 '    try: c = "ok " + athlib.get_specific_event_code(ev, g, ag)\n'
+                 '    except ValueError: c = "ValueError"\n'
+                 '    except Exception as e: c = "Error:" + type(e).__name__\n'
+                 '    out.append([w, c])\n'
+                 'print(json.dumps(out))\n') % (vlib.REPO,)
+        pr = subprocess.run([_sys.executable, '-c', code_], input=_json.dumps(order), capture_output=True, text=True, timeout=600)
+        try: res = _json.loads(pr.stdout.strip().split('\n')[-1])
+        except Exception:
+            ctx.oblig('fresh-interpreter sweep of get_implement_weight (%s)' % oname, 'correspondence', False, (pr.stderr or pr.stdout)[-400:]); continue
+        for q, r in zip(order, res):
+            answers.setdefault(q, []).append((oname + ' order in a fresh interpreter', r))
+    nh = 0
+    for q in qs:
+        ev, g, ag = q
+        try: w = athlib.get_implement_weight(ev, g, ag)
+        except Exception as e: w = 'Error:' + type(e).__name__
+        try: c = 'ok ' + athlib.get_specific_event_code(ev, g, ag)
+        except ValueError: c = 'ValueError'
+        except Exception as e: c = 'Error:' + type(e).__name__
+        got = [('this process, first sweep', [first.get(('weight',) + q), first.get(('code',) + q)]), ('this process, now', [w, c])] + answers.get(q, [])
+        nh += len(got)
+        if any(x[1] != got[0][1] for x in got):
+            ctx.fail('athlib.get_implement_weight', [ev, g, ag], 'one answer, whatever was asked before', '; '.join('%s: %r' % x for x in got),
+                     note='the answer depends on what was asked before in the same process',
+                     replay_py='first = athlib.get_implement_weight(%r, %r, %r)\nfor g in ("M", "F"):\n    for ag in %r:\n        athlib.get_implement_weight(%r, g, ag)\nresult = (first, athlib.get_implement_weight(%r, %r, %r))' % (ev, g, ag, LIB_LABELS, ev, ev, g, ag))
+    ctx.count(nh, 'history_independence_answers')
     for ev in ['LJ', '100', 'HJ', '4x100', 'DEC', '60H', 'MAR', 'SP7.26K', 'JT800', 'BT1K', 'OT150']:
         for g in ('M', 'F'):
             for ag in ('U13', 'SEN', 'V50'):
